@@ -630,19 +630,27 @@ package server
 // C07: deleting a dataset: the deleted set is extended copy-on-write and persisted before the dataset record is
 // removed; the garbage collector only selects keys whose dataset field is in the deleted set
 
-//@ assumed (*DsManager).IsDataset
-//@   pure
+// the dataset registry (a sync.Map) as a function of its version: every Store/Delete on a sync.Map moves to a new version
+//@ ghost $regVer int
+//@ spec regDs(ver int, name string) int
+//@ inline (*DsManager).IsDataset
 //@ assumed (*DsManager).GetDataset
 //@   pure
+//@   ensures result == regDs($regVer, id)
+//@   ensures result != nil ==> result.ID == id
 //@ assumed (*Store).deleteValue
 //@   modifies $recordsDeleted
 //@   ensures result == nil ==> $recordsDeleted == old($recordsDeleted) + 1
 //@   ensures result != nil ==> $recordsDeleted == old($recordsDeleted)
 //@ ghost $recordsDeleted int
 //@ assumed (*sync.Map).Delete
-//@   pure
+//@   modifies $regVer
+//@   ensures $regVer == old($regVer) + 1
+// the registry record of a dataset is stored under a key made from the dataset's current name
+//@ spec recordName(b slice) string
 //@ assumed (*Dataset).getStorageKey
 //@   pure
+//@   ensures recordName(result) == ds.ID
 //@ assumed (*DsManager).storeEntity
 //@   preserves Store.deletedDatasets, Store.nextDatasetID, map[uint32]bool, DsManager.*
 //@ assumed (*DsManager).NewDatasetEntity
@@ -756,7 +764,8 @@ package server
 //@   ensures result != nil ==> $valuesStored == old($valuesStored)
 //@ ghost $valuesStored int
 //@ assumed (*sync.Map).Store
-//@   pure
+//@   modifies $regVer
+//@   ensures $regVer == old($regVer) + 1
 //@ assumed (server.EventBus).RegisterTopic
 //@   pure
 
@@ -789,6 +798,35 @@ package server
 //@     assert [C04:next-id-persisted-before-the-dataset-record] idPersistedG && ds.InternalID == freshG
 //@   at call storeEntity#1 before
 //@     assert [C19:meta-entity-stored-in-core-dataset-after-the-record] $valuesStored == old($valuesStored) + 2
+
+// renaming a dataset: the record moves from the key of the old name to the key of the new name (one transaction, see
+// moveValue) and carries the new name; the registry is updated only after the record moved; the meta entity of the old
+// name is tombstoned and a live one for the new name is written
+//@ assumed (*NamespaceManager).GetDatasetNamespaceInfo
+//@   pure
+//@   ensures foreign(ret0)
+//@ unit (*DsManager).UpdateDataset
+//@   prop C14 C07 C19
+//@   ghost movedG bool = false
+//@   requires dsm != nil && dsm.store != nil && config != nil && !has($held, addrOf(dsm.lock))
+//@   requires [callers-hold-no-lock] forall l int :: has($held, l) ==> lockLevel(l) < 1
+//@   at call Marshal#1 before
+//@     assert [C14:renamed-record-carries-the-new-name] cast(v, "*server.Dataset") == ds && ds.ID == newName && newName == config.ID
+//@   at call moveValue#1 before
+//@     assert [C14,C07:record-moves-from-the-key-of-the-old-name-to-the-key-of-the-new-name] recordName(oldKey) == name && recordName(newKey) == newName
+//@     assert [C14:moved-record-is-the-serialised-renamed-dataset] newValue == jsonData
+//@   at call moveValue#1
+//@     ghost movedG := $result == nil
+//@   at call Delete#1 before
+//@     assert [C14:registry-updated-only-after-the-record-moved] movedG && cast(key, "string") == name
+//@   at call Store#1 before
+//@     assert [C14:registry-maps-the-new-name-to-the-renamed-dataset] movedG && cast(key, "string") == newName && cast(value, "*server.Dataset") == ds
+//@   at call GetEntity#1 before
+//@     assert [C19:meta-entity-of-the-old-name-is-looked-up] uri == dsInfo.DatasetPrefix + ":" + name
+//@   at call storeEntity#1 before
+//@     assert [C19:old-meta-entity-tombstoned-in-core-dataset] entity.IsDeleted && dataset == core
+//@   at call storeEntity#2 before
+//@     assert [C19:new-meta-entity-live-under-the-new-name] !entity.IsDeleted && entity.ID == dsInfo.DatasetPrefix + ":" + newName && dataset == core
 
 // ---------------------------------------------------------------------------
 // C04 / C05: multi-dataset transactions: datasets locked in name order, one badger transaction, ids before data
